@@ -227,7 +227,11 @@ fn read_timeout(e: &'static Engine, workers: usize, d_ns: u64, at_ns: &'static [
             // the first read starts at the very moment the data arrives: the readiness edge races with subscribe
             coroutine::sleep(Duration::from_nanos(reader_delay_ns));
         }
-        for _ in 0..n {
+        for i in 0..n {
+            if i > 0 && reader_delay_ns != 0 {
+                // the next operation starts later, so that a timer left over from the previous one would be early
+                coroutine::sleep(Duration::from_nanos(2 * reader_delay_ns));
+            }
             let mut buf = [0u8; 4];
             let t0 = may::verif::now();
             let r = b.read(&mut buf);
@@ -241,7 +245,11 @@ fn read_timeout(e: &'static Engine, workers: usize, d_ns: u64, at_ns: &'static [
         }
         b
     });
-    let wr = go!(move || {
+    // the writer is a coroutine, or (when the read is timed to meet the data) a plain thread, so that the write is
+    // not serialised with the reader's wake-up on the timer thread
+    let keep: Arc<Mutex<Option<UnixStream>>> = Arc::new(Mutex::new(None));
+    let k2 = keep.clone();
+    let writer = move || {
         let start = may::verif::now();
         for at in at_ns {
             if *at != 0 {
@@ -253,10 +261,14 @@ fn read_timeout(e: &'static Engine, workers: usize, d_ns: u64, at_ns: &'static [
             }
         }
         // keep the peer open until the reader is done
-        a
-    });
+        *k2.lock().unwrap() = Some(a);
+    };
+    let wr = spawn_part(e, if reader_delay_ns != 0 { 'T' } else { 'C' }, writer);
     let _b = rd.join().unwrap_or_else(|_| e.fail("unexpected_panic", "the reader panicked"));
-    let _a = wr.join().unwrap_or_else(|_| e.fail("unexpected_panic", "the writer panicked"));
+    if join_part(e, wr).is_err() {
+        e.fail("unexpected_panic", "the writer panicked");
+    }
+    let _a = keep.lock().unwrap().take();
     let res = results.lock().unwrap().clone();
     for (i, (got, _t0, dt)) in res.iter().enumerate() {
         if !*got && *dt < d_ns {
@@ -402,10 +414,22 @@ pub fn build_c18(quick: bool) -> Vec<Scenario> {
         // two operations on one socket: the first completes early, the second must not inherit its timer
         v.push(Scenario::new(p, "stale_timer", format!("read_timeout.2ms.early_then_never.w{}", w), Arc::new(move |e| read_timeout(e, w, 2 * MS, &[MS / 2, 0], 0))).t2());
         v.push(Scenario::new(p, "stale_timer", format!("read_timeout.2ms.never_then_data.w{}", w), Arc::new(move |e| read_timeout(e, w, 2 * MS, &[0, 3 * MS], 0))).t2());
-        v.push(Scenario::new(p, "stale_timer", format!("read_timeout.2ms.read_meets_data_then_never.w{}", w), Arc::new(move |e| read_timeout(e, w, 2 * MS, &[MS / 2, 0], MS / 2))).t2());
+        v.push(Scenario::new(p, "stale_timer", format!("read_timeout.2ms.read_meets_data_then_never.w{}", w), Arc::new(move |e| read_timeout(e, w, 2 * MS, &[MS / 2, 0], MS / 2))).t2().bound(2));
         for what in [Blocked::Read, Blocked::Accept, Blocked::UdpRecv] {
             v.push(Scenario::new(p, "cancel_io", format!("cancel_io.{:?}.w{}", what, w).to_lowercase(), Arc::new(move |e| cancel_io(e, w, what))));
         }
     }
-    v.into_iter().map(|s| s.tier(quick).vt_horizon(100 * MS).horizon(12_000)).collect()
+    v.into_iter()
+        .map(|s| {
+            // the fast-path member needs two deviations: guaranteed in both tiers
+            let deep = s.name.contains("read_meets_data") && s.name.ends_with(".w1");
+            let s = s.tier(quick);
+            if deep && s.bound < 2 {
+                s.bound(2)
+            } else {
+                s
+            }
+        })
+        .map(|s| s.vt_horizon(100 * MS).horizon(12_000))
+        .collect()
 }
